@@ -26,7 +26,7 @@ BUDGET = {"quick": (16, 220), "thorough": (16, 6000)}
 def _strategy(draw):
     flavour = draw(st.sampled_from(["plain", "plain", "links", "links", "multires", "mods"]))
     if flavour == "plain":
-        spec = draw(gp.case(with_links=False, allow_dangling=False))
+        spec = draw(gp.case(with_links=False, allow_dangling=False, resname_mismatch=True))
     elif flavour == "links":
         spec = draw(gp.case(with_links=True, link_bias=True))
     elif flavour == "multires":
